@@ -60,7 +60,7 @@ func runWedge(c *ctx) {
 		asr := e.rpc(message.NewAssociationSetupRequest(e.nextSeq(), ie.NewNodeID(e.ip(1), "", ""), ie.NewRecoveryTimeStamp(time.Unix(1700000000, 0))), &pend)
 		if causeOf(asr) != "1" {
 			fmt.Fprintln(os.Stderr, "harness: association refused")
-			os.Exit(3)
+			die(3)
 		}
 		// the data plane answers a multi-URR query with one report per URR
 		e.d.pk.mu.Lock()
@@ -74,7 +74,7 @@ func runWedge(c *ctx) {
 			rsp := e.rpc(message.NewSessionEstablishmentRequest(0, 0, 0, e.nextSeq(), 0, ies...), &pend)
 			if causeOf(rsp) != "1" {
 				fmt.Fprintln(os.Stderr, "harness: establishment refused:", causeOf(rsp))
-				os.Exit(3)
+				die(3)
 			}
 		}
 		e.settle()
